@@ -14,11 +14,14 @@ sys.path.insert(0, os.path.join(core.VERIF, "translate"))
 import range_h  # noqa: E402
 
 GEN = os.path.join(core.LEAN_DIR, "UtapModel", "Gen", "RangeGen.lean")
+GEN_ORD = os.path.join(core.LEAN_DIR, "UtapModel", "Gen", "RangeOrd.lean")
 MODULE = "UtapModel.Props.C18"
+MODULES = ["UtapModel.Props.C18", "UtapModel.Props.C18Float"]
 SCALAR_OPS = ["gt", "geq", "lt", "leq", "andT", "orT", "addT", "subT", "mulT", "contains", "eqT"]
 RANGE_OPS = ["andR", "orR", "addR", "subR", "mulR", "intersects", "eqR", "ltop", "gtop", "leop", "geop", "minR", "maxR"]
 # which theorems speak about which operation (used to name the replay when a proof breaks)
 THEOREM_OPS = {"mem_gt": "gt", "mem_geq": "geq", "mem_lt": "lt", "mem_leq": "leq"}
+# (theorems of both modules: the integral instantiation (Props/C18) and the floating-point one (Props/C18Float))
 
 
 def gen_ops(ctx):
@@ -78,20 +81,22 @@ def run(ctx):
     tie_ok = True
     try:
         text, order = range_h.translate(core.REPO)
-        if not os.path.exists(GEN) or open(GEN).read() != text:
-            open(GEN, "w").write(text)
+        core.write_if_changed(GEN, text)
         cov["translated_members"] = len(order)
+        text2, order2 = range_h.translate_ord(core.REPO)        # floating-point instantiation (order-theoretic members)
+        core.write_if_changed(GEN_ORD, text2)
+        cov["translated_members_floating_point"] = len(order2)
     except range_h.TranslateError as ex:
         tie_ok = False
         ctx.log("translator failed:", ex)
         cases, fails = run_oracle(ctx, hb)
         if not fails:
             ctx.proof_broken("translate/range_h.py", str(ex), "oracle: %d cases on the implementation, no failure" % cases)
-        cov.update({"obligations": len(core.theorems_of(MODULE)), "discharged": 0, "checker_cmd": "n/a (translation failed)",
+        cov.update({"obligations": sum(len(core.theorems_of(m)) for m in MODULES), "discharged": 0, "checker_cmd": "n/a (translation failed)",
                     "trusted_base": core.TRUSTED_BASE})
         return
     # 2 prove -----------------------------------------------------------------------------------
-    ok, log = ctx.prove(MODULE, ["drv_c18"])
+    ok, log = ctx.prove(MODULES, ["drv_c18"])
     broken = []
     if not ok:
         broken = core.failing_theorems(log)
@@ -135,8 +140,9 @@ def run(ctx):
         if not fails:
             ctx.proof_broken("correspondence:range_h", what + (err1 + err2)[-1000:], "oracle: %d cases, no failure" % cases)
     ctx.assumptions += [
-        "T is an integral type and no operation overflows it (the property's own restriction); floating-point T "
-        "(nexttoward, +-inf) is only tested at boundary values by the oracle, not proved",
+        "integral T: no operation overflows (the property's own restriction). Floating-point T: the order-theoretic operations "
+        "(gt lt geq leq & | contains intersects == <) are proved over the abstract structure FloatLike (linear order with "
+        "infinities, nexttoward as successor/predecessor; NaN excluded, -0.0 = +0.0); floating-point + - * round and are not claimed",
         "asserts are compiled out (the baseline configuration is RelWithDebInfo = -DNDEBUG)",
     ]
     cov["evaluations"] = len(lines) + cases
